@@ -40,6 +40,7 @@ def pipe_parts(p, term):
 
 class TermCase(FnCase):
     """the factory evaluates to the expected pipeline term"""
+    internal_representation = True
 
     def __init__(self, name, module, factory, args, kws, expect):
         self.name = f'{name}/term'; self.module = module; self.factory = factory; self.args = args; self.kws = kws; self.expect = expect
@@ -66,6 +67,7 @@ def part_is(parts, i, qual_suffix):
 
 class HelperCase(FnCase):
     """one helper closure of a pipeline term against its contract"""
+    internal_representation = True
 
     def __init__(self, name, module, factory, fargs, fkws, pick, args_fn, requires_fn, ensures_fn, loop_contracts=None, on_exc=None):
         self.name = name; self.module = module; self.factory = factory; self.fargs = fargs; self.fkws = fkws
@@ -454,4 +456,64 @@ def unit_helpers(opts):
     for k, f in groups.items():
         if which in ('all', k):
             cases += f()
+    return run_cases(f'helpers.{which}', cases, opts)
+
+
+# ---------------------------------------------------------------- end-to-end confirmation of helper refutations (real operators, small scopes)
+_E2E_CACHE = {}
+
+
+def _e2e(group):
+    def run():
+        if group in _E2E_CACHE:
+            return _E2E_CACHE[group]
+        import itertools
+        import rxsci as rs
+        from ..specs import run_mux, run_plain, batch_spec, distinct_until_changed_spec
+        found = None
+        if group == 'batch':
+            for n in (1, 2, 3):
+                for L in range(0, 8):
+                    items = list(range(L))
+                    for mode, run_ in (('mux', run_mux), ('plain', run_plain)):
+                        got = run_(items, rs.data.batch(n))
+                        if got != batch_spec(items, n) and not found:
+                            found = {'pipeline': f'batch({n}) [{mode}]', 'input': items, 'expected': batch_spec(items, n), 'got': got}
+        elif group == 'distinct_until_changed':
+            for L in range(0, 5):
+                for items in itertools.product((0, 1, None, (1,)), repeat=L):
+                    items = list(items)
+                    for key in (None, lambda i: i if not isinstance(i, tuple) else i[0]):
+                        got = run_mux(items, rs.ops.distinct_until_changed(key))
+                        exp = distinct_until_changed_spec(items, key or (lambda i: i))
+                        if got != exp and not found:
+                            found = {'pipeline': f'distinct_until_changed({"key_mapper" if key else ""})', 'input': items, 'expected': exp, 'got': got}
+        elif group in ('math', 'formal'):
+            from ..bounded.mux import check_c12
+            r = check_c12({'tier': 'quick', 'seed': 0})
+            found = r['failures'][0] if r['failures'] else None
+        elif group == 'misc':
+            got = run_mux([1, 2, 3], rs.data.to_list())
+            if got != [[1, 2, 3]]: found = {'pipeline': 'to_list', 'input': [1, 2, 3], 'expected': [[1, 2, 3]], 'got': got}
+            got = run_mux([(1, 2), (3, 4)], rs.ops.starmap(lambda a, b: a + b))
+            if got != [3, 7] and not found: found = {'pipeline': 'starmap(add)', 'input': [(1, 2), (3, 4)], 'expected': [3, 7], 'got': got}
+        _E2E_CACHE[group] = found
+        return found
+    return run
+
+
+_orig_unit_helpers = unit_helpers
+
+
+def unit_helpers(opts):
+    which = opts.get('which', 'all')
+    groups = {'batch': batch_cases, 'distinct_until_changed': duc_cases, 'math': math_cases, 'formal': formal_cases, 'misc': misc_cases}
+    cases = []
+    for k, f in groups.items():
+        if which in ('all', k):
+            cs = f()
+            for c in cs:
+                if getattr(c, 'internal_representation', False):
+                    c.e2e = _e2e(k)
+            cases += cs
     return run_cases(f'helpers.{which}', cases, opts)
